@@ -53,6 +53,67 @@ def _const_of(e, env):
     return None
 
 
+class _Inline(ast.NodeTransformer):
+    """Replace names by expressions; `getattr(x, 'lit')` becomes `x.lit` (after the replacement)."""
+
+    def __init__(self, env):
+        self.env = env
+
+    def visit_Name(self, n):
+        if isinstance(n.ctx, ast.Load) and n.id in self.env:
+            return self.env[n.id]
+        return n
+
+    def visit_Call(self, n):
+        self.generic_visit(n)
+        if isinstance(n.func, ast.Name) and n.func.id == 'getattr' and len(n.args) == 2 and not n.keywords \
+                and isinstance(n.args[1], ast.Constant) and isinstance(n.args[1].value, str) \
+                and n.args[1].value.isidentifier():
+            return ast.copy_location(ast.Attribute(value=n.args[0], attr=n.args[1].value, ctx=ast.Load()), n)
+        return n
+
+
+def _const_rows(e):
+    """Python value of a literal tuple/list of constants or of flat tuples of constants, else None."""
+    if not isinstance(e, (ast.Tuple, ast.List)) or not e.elts:
+        return None
+    rows = []
+    for x in e.elts:
+        if isinstance(x, ast.Constant):
+            rows.append(x.value)
+        elif isinstance(x, (ast.Tuple, ast.List)) and x.elts and all(isinstance(y, ast.Constant) for y in x.elts):
+            rows.append(tuple(y.value for y in x.elts))
+        else:
+            return None
+    return rows
+
+
+def _table_rows(it, env):
+    if isinstance(it, ast.Name):
+        return (env.get('<tables>') or {}).get(it.id)
+    return _const_rows(it)
+
+
+def _no_continue(body):
+    """Loop body with `if T: continue` + rest rewritten as `if not T: rest`; None if `continue`/`break`
+    occur anywhere else."""
+    res = []
+    for i, st in enumerate(body):
+        if isinstance(st, ast.If) and not st.orelse and len(st.body) == 1 and isinstance(st.body[0], ast.Continue):
+            rest = _no_continue(body[i + 1:])
+            if rest is None:
+                return None
+            if rest:
+                res.append(ast.copy_location(ast.If(test=ast.UnaryOp(op=ast.Not(), operand=st.test),
+                                                    body=rest, orelse=[]), st))
+            return res
+        if any(isinstance(n, (ast.Continue, ast.Break)) for n in astx.walk(st)
+               ) and not isinstance(st, (ast.For, ast.While)):
+            return None
+        res.append(st)
+    return res
+
+
 def _effects(stmts, repo=None, cls=None, env=None, guards=(), depth=0, helpers=None):
     """[(guards, iterable dump, method)] of a statement list made of
          if G: ...            (G a run-time flag: recorded as a guard; G a constant under `env`: branch taken)
@@ -61,16 +122,59 @@ def _effects(stmts, repo=None, cls=None, env=None, guards=(), depth=0, helpers=N
     None when any statement has another shape.  `helpers` collects the Funcs that were inlined."""
     env = env or {}
     out = []
-    for st in stmts:
+    stmts = list(stmts)
+    while stmts:
+        st = stmts.pop(0)
         if isinstance(st, ast.Pass):
             continue
+        if isinstance(st, ast.Assign) and len(st.targets) == 1 and isinstance(st.targets[0], ast.Name):
+            nm = st.targets[0].id
+            rows = _const_rows(st.value)
+            if rows is not None:
+                # a constant table (`pairs = (('_flag', 'kind'), ...)`) iterated later, possibly in the finally block
+                env = dict(env)
+                env.setdefault('<tables>', {})
+                env['<tables>'] = dict(env['<tables>'], **{nm: rows})
+                continue
+            if not any(isinstance(n, (ast.Call, ast.Yield, ast.Await, ast.NamedExpr)) for n in astx.walk(st.value)) \
+                    and not any(isinstance(n, ast.Name) and isinstance(n.ctx, ast.Store) and n.id == nm
+                                for s2 in stmts for n in astx.walk(s2)):
+                # pure local alias (`vecs = self._vectors[kind]`): substituted into the rest of the block
+                stmts = [_Inline({nm: st.value}).visit(pathx._cp(s2)) for s2 in stmts]
+                continue
+            return None
+        if isinstance(st, ast.For) and not st.orelse:
+            rows = _table_rows(st.iter, env)
+            names = [st.target] if isinstance(st.target, ast.Name) else \
+                list(st.target.elts) if isinstance(st.target, (ast.Tuple, ast.List)) else None
+            if rows is not None and names is not None and all(isinstance(n, ast.Name) for n in names):
+                # loop over a constant table: unrolled, the loop variables replaced by the row's constants
+                for row in rows:
+                    vals = [row] if isinstance(st.target, ast.Name) else list(row) if isinstance(row, tuple) else None
+                    if vals is None or len(vals) != len(names):
+                        return None
+                    sub_env = {n.id: ast.Constant(value=v) for n, v in zip(names, vals)}
+                    if any(isinstance(v, tuple) for v in vals):
+                        return None
+                    body = [_Inline(sub_env).visit(pathx._cp(s2)) for s2 in st.body]
+                    body = _no_continue(body)
+                    if body is None:
+                        return None
+                    sub = _effects(body, repo, cls, env, guards, depth, helpers)
+                    if sub is None:
+                        return None
+                    out += sub
+                continue
         if isinstance(st, ast.If):
-            cv = _const_of(st.test, env)
+            test, tbody, torelse = st.test, st.body, st.orelse
+            while isinstance(test, ast.UnaryOp) and isinstance(test.op, ast.Not):
+                test, tbody, torelse = test.operand, torelse, tbody
+            cv = _const_of(test, env)
             if cv is not None:
-                sub = _effects(st.body if cv[0] else st.orelse, repo, cls, env, guards, depth, helpers)
+                sub = _effects(tbody if cv[0] else torelse, repo, cls, env, guards, depth, helpers)
             else:
-                a = _effects(st.body, repo, cls, env, guards + ((astx.dump(st.test), True),), depth, helpers)
-                b = _effects(st.orelse, repo, cls, env, guards + ((astx.dump(st.test), False),), depth, helpers)
+                a = _effects(tbody, repo, cls, env, guards + ((astx.dump(test), True),), depth, helpers)
+                b = _effects(torelse, repo, cls, env, guards + ((astx.dump(test), False),), depth, helpers)
                 sub = None if a is None or b is None else a + b
             if sub is None:
                 return None
@@ -139,6 +243,20 @@ def _loop_calls(body, target, env):
     return ms
 
 
+def _tables_env(fn, stmts):
+    """Constant tables bound once at the top level of *stmts* (and nowhere else in fn): visible in the finally block."""
+    tabs = {}
+    for st in stmts:
+        if isinstance(st, ast.Assign) and len(st.targets) == 1 and isinstance(st.targets[0], ast.Name):
+            rows = _const_rows(st.value)
+            nm = st.targets[0].id
+            stores = [n for n in astx.walk(fn.node) if isinstance(n, ast.Name) and n.id == nm
+                      and isinstance(n.ctx, (ast.Store, ast.Del))]
+            if rows is not None and len(stores) == 1:
+                tabs[nm] = rows
+    return {'<tables>': tabs} if tabs else None
+
+
 def ctx_helpers(repo):
     """Helper methods through which the two context managers apply their effects (inlined by C08.ctx)."""
     hs = []
@@ -151,7 +269,7 @@ def ctx_helpers(repo):
         if len(trys) == 1 and body[-1] is trys[0]:
             cls = (SYSTEM, 'System')
             _effects(body[:-1], repo, cls, helpers=hs)
-            _effects(trys[0].finalbody, repo, cls, helpers=hs)
+            _effects(trys[0].finalbody, repo, cls, env=_tables_env(fn, body[:-1]), helpers=hs)
     return {h.ident: h for h in hs}
 
 
@@ -178,7 +296,7 @@ def ctx(repo, out):
         t = trys[0]
         cls = (SYSTEM, 'System')
         pre = _effects(body[:-1], repo, cls)
-        post = _effects(t.finalbody, repo, cls)
+        post = _effects(t.finalbody, repo, cls, env=_tables_env(fn, body[:-1]))
         has_yield = any(isinstance(n, ast.Yield) for s in t.body for n in astx.walk(s))
         if not has_yield or t.handlers:
             out.unsure(fn, t, 'yield not directly in try body / handlers present')
@@ -1542,6 +1660,16 @@ _CTX_ALL_OLD = ("        if self._has_output_scaling:\n            for vec in se
                 "            if self._has_resid_scaling:\n                for vec in self._vectors['residual'].values():\n                    vec.scale_to_phys()\n")
 
 
+def _ctx_all_table(fin_table='flag_kinds', skip='if not getattr(self, flag_name):'):
+    return ("        flag_kinds = (('_has_output_scaling', 'output'), ('_has_resid_scaling', 'residual'))\n\n"
+            "        for flag_name, kind in flag_kinds:\n            if getattr(self, flag_name):\n"
+            "                for vec in self._vectors[kind].values():\n                    vec.scale_to_norm()\n\n"
+            "        try:\n\n            yield\n\n        finally:\n\n"
+            "            for flag_name, kind in " + fin_table + ":\n                " + skip + "\n                    continue\n"
+            "                kind_vecs = self._vectors[kind]\n                for vec in kind_vecs.values():\n"
+            "                    vec.scale_to_phys()\n")
+
+
 def _ctx_all_helper(res_else='res_vec.scale_to_phys()', extra=''):
     return ("        self._rescale_all(to_norm=True)\n\n        try:\n\n            yield\n\n        finally:\n\n"
             "            self._rescale_all(False)\n" + extra + "\n"
@@ -1650,6 +1778,10 @@ selftest(
            "        if mode == 'rev':\n            adder, scaler = self._scaling\n            self._scale_forward(scaler, adder)\n        else:", 'C08.vec'),
     Mutant('vec-early-return-skips-scaler', DVEC, "        data = self.asarray()\n        if adder is not None:  # nonlinear only\n            data -= adder\n        data /= scaler",
            "        data = self.asarray()\n        if adder is None:\n            return\n        data -= adder\n        data /= scaler", 'C08.vec'),
+    Twin('twin-ctx-table', SYSTEM, _CTX_ALL_OLD, _ctx_all_table()),
+    Mutant('ctx-table-finally-other-table', SYSTEM, _CTX_ALL_OLD,
+           _ctx_all_table(fin_table="(('_has_output_scaling', 'output'), ('_has_output_scaling', 'residual'))"), 'C08.ctx'),
+    Mutant('ctx-table-finally-inverted-skip', SYSTEM, _CTX_ALL_OLD, _ctx_all_table(skip='if getattr(self, flag_name):'), 'C08.ctx'),
     Twin('twin-ctx-helper', SYSTEM, _CTX_ALL_OLD, _ctx_all_helper()),
     Mutant('ctx-helper-asymmetric', SYSTEM, _CTX_ALL_OLD, _ctx_all_helper(res_else='pass'), 'C08.ctx'),
     Mutant('ctx-helper-second-user', SYSTEM, _CTX_ALL_OLD,
